@@ -422,8 +422,8 @@ func mwResponseSpec(d *mwDeploy, u mwUser, inResponseTo string, n int) RespSpec 
 	}
 	a := AsrtSpec{ID: fmt.Sprintf("id-as-%d", n), Issuer: idpEntity, NameID: u.NameID, NoNameID: u.NoNameID, SessionNOA: snoa,
 		NotBefore: i64(-1000), NotOnOrAfter: i64(3_600_000 * 24), Audiences: []string{d.entityID()}, Attrs: u.Attrs, SessionIndex: u.Index, Sign: true,
-		Confs: []ConfSpec{{NotOnOrAfter: i64(3_600_000 * 24), Recipient: d.acs(), InResponseTo: inResponseTo}}}
-	return RespSpec{ID: fmt.Sprintf("id-resp-%d", n), Issuer: sp(idpEntity), Destination: d.acs(), InResponseTo: inResponseTo,
+		Confs: []ConfSpec{{NotOnOrAfter: i64(3_600_000 * 24), Recipient: d.acs(), InResponseTo: inResponseTo}}, Pretty: n%3 == 2}
+	return RespSpec{Pretty: n%3 == 2, ID: fmt.Sprintf("id-resp-%d", n), Issuer: sp(idpEntity), Destination: d.acs(), InResponseTo: inResponseTo,
 		Status: saml.StatusSuccess, Sign: true, Assertions: []AsrtSpec{a}}
 }
 
